@@ -24,6 +24,11 @@ CtrlsC01 == { Ctl(pk, "f1", n, pre, n, <<>>) : pk \in {"p1", "p2"}, n \in {"ACon
 MethodsC01 == { Mth(f, v, r, h, d, <<>>) : f \in {"", "f2"}, v \in {"GET", "POST", "DELETE"}, r \in {"/", "/x", "x", "//x", "/x/", "/{id}", "/{id}/y"},
                                            h \in BOOLEAN, d \in BOOLEAN }
 
+\* ---- C15 at project level: few verbs, overlapping literal/parameter routes under prefixes that create or remove the overlap -----
+CfgsC15 == { Cfg("gin", "3.0.0", FALSE, NoSec, <<"s1">>) }
+CtrlsC15 == { Ctl(pk, "f1", n, pre, n, <<>>) : pk \in {"p1", "p2"}, n \in {"AController", "BController", "CController"}, pre \in {"", "/a", "/a/", "/{t}", "/b"} }
+MethodsC15 == { Mth("", v, r, FALSE, FALSE, <<>>) : v \in {"GET", "POST"}, r \in {"/x", "//x", "/{id}", "/x/{id}", "/{id}/y", "/x/y", "/y"} }
+
 \* ---- simulation: everything together ----------------------------------------------------------------------------------
 CfgsSim == { Cfg(en, v, e, d, <<"s1", "s2">>) : en \in {"gin", "echo", "mux", "chi", "fiber"}, v \in {"3.0.0", "3.1.0"}, e \in BOOLEAN, d \in {NoSec, S("s1", <<"d">>)} }
 CtrlsSim == { Ctl(pk, f, n, pre, tg, sec) : pk \in {"p1", "p2"}, f \in {"f1", "f2"}, n \in {"AController", "BController", "CController"},
